@@ -124,6 +124,7 @@ func (s *publishSubjectImpl[T]) ErrorWithContext(ctx context.Context, err error)
 	}
 
 	s.mu.Unlock()
+	verifPoint("subject.terminal.unlocked")
 	s.unsubscribeAll()
 }
 
@@ -144,6 +145,7 @@ func (s *publishSubjectImpl[T]) CompleteWithContext(ctx context.Context) {
 	}
 
 	s.mu.Unlock()
+	verifPoint("subject.terminal.unlocked")
 	s.unsubscribeAll()
 }
 
